@@ -399,7 +399,14 @@ fn receive_step<const I: usize, const D: usize, const P: usize>() {
     let event = p.receive_reply(now, &dp, &fdl, telegram);
 
     // ---- reference classification of the reply ----------------------------------------------
-    let diag_ok = !is_sc && dsap == Some(62) && ssap == Some(60) && plen >= 6;
+    let diag_shaped = !is_sc && dsap == Some(62) && ssap == Some(60) && plen >= 6;
+    // A diagnostics-shaped reply carrying a NEGATIVE response status (UE/RR/RS/NR) is something no
+    // conforming slave sends and the properties say nothing about: the master may evaluate it like
+    // any diagnostics reply (what the code does) or ignore it like a malformed one.  Which of the
+    // two happened is read off the frame count bit (an accepted reply always moves it, an ignored
+    // diagnostics reply never does); every obligation below is then checked for that reading.
+    let nak = matches!(rstatus, ResponseStatus::UserError | ResponseStatus::NoResources | ResponseStatus::SapNotEnabled | ResponseStatus::NoDataReady);
+    let diag_ok = diag_shaped && (!nak || p.fcb != pre_fcb);
     let flags = u16::from(pdu_store[0]) | (u16::from(pdu_store[1]) << 8);
     const NOT_READY: u16 = 0x0002;
     const CFG_FAULT: u16 = 0x0004;
@@ -539,9 +546,13 @@ fn receive_step<const I: usize, const D: usize, const P: usize>() {
 
     // ---- C08: FCB and retry counter on replies -------------------------------------------------
     let observable_change = p.state != pre_state || event.is_some() || changed || p.diag != pre_diag;
-    vassert!(p.fcb == pre_fcb || p.fcb == cycled(pre_fcb), "C08/fcb-rx: a reply leaves the frame count bit or toggles it (FCV=1 afterwards)");
+    // a reply that sends the peripheral (back) to Offline - a parameter/configuration fault report -
+    // may also start a new life: the next request is then a "first" one (FCV=0/FCB=1), which is
+    // what the property demands after the peripheral was declared offline
+    let fresh_life = p.state == PeripheralState::Offline && pre_state != PeripheralState::Offline && p.fcb == FrameCountBit::First;
+    vassert!(p.fcb == pre_fcb || p.fcb == cycled(pre_fcb) || fresh_life, "C08/fcb-rx: a reply leaves the frame count bit or toggles it (FCV=1 afterwards)");
     if observable_change {
-        vassert!(p.fcb == cycled(pre_fcb), "C08/toggle-after-accepted-reply: a reply that changed observable state toggles the frame count bit");
+        vassert!(p.fcb == cycled(pre_fcb) || fresh_life, "C08/toggle-after-accepted-reply: a reply that changed observable state toggles the frame count bit");
         vassert!(p.retry_count == 0, "C08/retry-count: an accepted reply resets the retry counter");
     }
     if p.fcb == pre_fcb {
@@ -569,6 +580,7 @@ fn c03_receive_step_t() {
 
 /// The invariant holds initially and `request_diagnostics` / output writes preserve it.
 #[kani::proof]
+#[kani::unwind(4)]
 fn c03_inv_initial() {
     let mut pi_i = [0u8; 2];
     let mut pi_q = [0u8; 2];
@@ -678,6 +690,8 @@ fn c08_request_pair_q() {
         i += 1;
     }
     let accepted = got_reply && (p.state != state_a || event.is_some() || p.diag != diag_a || image_changed);
+    // a fault report that sent the peripheral back to Offline may start a new life (first request)
+    let went_offline = got_reply && p.state == PeripheralState::Offline && state_a != PeripheralState::Offline;
     if kani::any() {
         p.request_diagnostics();
     }
@@ -698,7 +712,7 @@ fn c08_request_pair_q() {
                 kani::cover!(!got_reply, "cover: retransmission after a time-out");
             }
             if accepted {
-                vassert!(fcb2.fcv() && fcb2.fcb() != fcb1.fcb(), "C08/toggle-after-accepted-reply: the request after an accepted reply toggles the bit with FCV=1");
+                vassert!((fcb2.fcv() && fcb2.fcb() != fcb1.fcb()) || (went_offline && !fcb2.fcv() && fcb2.fcb()), "C08/toggle-after-accepted-reply: the request after an accepted reply toggles the bit with FCV=1");
                 kani::cover!(true, "cover: toggled request after accepted reply");
             }
             vassert!(h2.da == addr, "C08/wire: requests go to the peripheral's address");
@@ -853,6 +867,9 @@ pub(crate) struct RefMaster {
     pub limit: u8,
     /// inputs configured (length > 0)?
     pub has_inputs: bool,
+    /// implementation freedom: a parameter/configuration fault report (peripheral back to
+    /// Offline) may also reset the frame count bit, so that the next probe is a "first" request
+    pub reset_on_fault: bool,
 }
 
 #[derive(Clone, Copy, PartialEq, Eq)]
@@ -876,6 +893,7 @@ impl RefMaster {
             diag_requested: p.diag_requested,
             limit: fdl.parameters().max_retry_limit,
             has_inputs: p.pi_i.len() > 0,
+            reset_on_fault: false,
         }
     }
 
@@ -928,9 +946,15 @@ impl RefMaster {
                     self.fcb = cycled(self.fcb);
                     if prm_fault {
                         self.state = PeripheralState::Offline;
+                        if self.reset_on_fault {
+                            self.fcb = FrameCountBit::First;
+                        }
                         Some(PeripheralEvent::ParameterError)
                     } else if cfg_fault {
                         self.state = PeripheralState::Offline;
+                        if self.reset_on_fault {
+                            self.fcb = FrameCountBit::First;
+                        }
                         Some(PeripheralEvent::ConfigError)
                     } else if prm_req {
                         self.state = PeripheralState::WaitForParam;
@@ -1080,9 +1104,21 @@ fn c07_refines_receive() {
         (r, _) => r,
     };
     let ev = p.receive_reply(crate::time::Instant::ZERO, &dp, &fdl, telegram);
+    // a diagnostics-shaped reply with a NEGATIVE response status (no conforming slave sends one):
+    // the master may evaluate it as a diagnostics reply or ignore it like a malformed one
+    let nak = matches!(rstatus, ResponseStatus::UserError | ResponseStatus::NoResources | ResponseStatus::SapNotEnabled | ResponseStatus::NoDataReady);
+    // implementation freedom: a fault report may also reset the frame count bit (RefMaster docs);
+    // the variant is chosen by what the implementation did, both are covered by the history harnesses
+    m.reset_on_fault = p.state == PeripheralState::Offline && p.fcb == FrameCountBit::First;
+    let mut m_ignore = m;
+    let ev_ignore = m_ignore.receive(Reply::Data { status: rstatus, len_ok: plen == ilen });
+    let may_ignore = nak && matches!(reply_for_ref, Reply::Diag { .. });
     let want_ev = m.receive(reply_for_ref);
-    vassert!(ev == want_ev, "C07/refines: the real master raises the event the reference master raises");
-    vassert!(RefMaster::of(&p, &fdl) == m, "C07/refines: after a reply the real peripheral's control state equals the reference master's");
+    let mut got = RefMaster::of(&p, &fdl);
+    got.reset_on_fault = m.reset_on_fault;
+    let as_ref = ev == want_ev && got == m;
+    let as_ignored = may_ignore && ev == ev_ignore && got == m_ignore;
+    vassert!(as_ref || as_ignored, "C07/refines: the real master raises the event the reference master raises and its control state afterwards equals the reference master's");
     kani::cover!(ev == Some(PeripheralEvent::Configured), "cover: configured");
     kani::cover!(ev == Some(PeripheralEvent::DataExchanged), "cover: data exchanged");
 }
@@ -1170,6 +1206,7 @@ fn any_ref_master(limit: u8) -> RefMaster {
         diag_requested: kani::any(),
         limit,
         has_inputs: kani::any(),
+        reset_on_fault: kani::any(),
     };
     kani::assume(m.rc <= limit + 1 && (m.state != PeripheralState::Offline || m.rc <= 1));
     m
@@ -1196,7 +1233,7 @@ fn any_ref_slave() -> RefSlave {
 /// request lost, reply lost, slave power cycle, user diagnostics request}, then `TURNS`
 /// fault-free turns: master in DataExchange, slave in Data_Exch, and stable.
 fn history_then_progress<const K: usize, const TURNS: usize>(limit: u8) {
-    let mut m = RefMaster { state: PeripheralState::Offline, rc: 0, fcb: FrameCountBit::First, diag_needed: false, diag_requested: false, limit, has_inputs: kani::any() };
+    let mut m = RefMaster { state: PeripheralState::Offline, rc: 0, fcb: FrameCountBit::First, diag_needed: false, diag_requested: false, limit, has_inputs: kani::any(), reset_on_fault: kani::any() };
     let mut s = any_ref_slave();
     s.last_fcb = None; // nothing was ever received from this master
     let mut live = false;
